@@ -121,6 +121,9 @@ def check_script(ck, sid, lines, out, m, st):
             l = nxt()
             if l is None:
                 return None, None           # crashed before; reported by the caller
+            if l.startswith("hx "):
+                st["sig"] = "oracle:c02:caller-asdu-storage"
+                return "CS101_ASDU_createFromBufferEx (caller-supplied ASDU storage) and CS101_ASDU_createFromBuffer disagree on %d octets: %s" % (L, l), "dec %s 0" % bytes(sub).hex()
             h = A.parse_hdr(l) if l.startswith("hdr") else "?"
             exp0 = A.expected_element(cfg, sub, 0)
             ck.evaluations += 1
